@@ -15,63 +15,10 @@ impl<A: Ord> Bins<A> {
     { unimplemented!() }
 }
 
-// ---- A-ITER: the iterator adaptors used by Grid, as vectors of their items -----------------------------------------
-// R17 spells `.iter()` as `.verif_iter()` so that the 1-D array and the Vec of projections share one (trait) method
-pub struct SeqIter<X> { pub items: Vec<X> }
-pub struct ZipIter2<X, Y> { pub items: Vec<(X, Y)> }
-pub struct MapIter<B> { pub items: Vec<B> }
-pub trait VerifIter<'a> {
-    type Item;
-    spec fn items_spec(&'a self) -> Seq<Self::Item>;
-    fn verif_iter(&'a self) -> (r: SeqIter<Self::Item>) ensures r.items@ == self.items_spec();
-}
+// the 1-D array as an item sequence (A-ITER, see shim/iterchain.rs)
 impl<'a, A: 'a> VerifIter<'a> for Lane<A> {
     type Item = &'a A;
     open spec fn items_spec(&'a self) -> Seq<&'a A> { Seq::new(self@.len(), |k: int| &self@[k]) }
     #[verifier::external_body]
     fn verif_iter(&'a self) -> (r: SeqIter<&'a A>) { unimplemented!() }
-}
-impl<'a, T: 'a> VerifIter<'a> for Vec<T> {
-    type Item = &'a T;
-    open spec fn items_spec(&'a self) -> Seq<&'a T> { Seq::new(self@.len(), |k: int| &self@[k]) }
-    #[verifier::external_body]
-    fn verif_iter(&'a self) -> (r: SeqIter<&'a T>) { unimplemented!() }
-}
-impl<X> SeqIter<X> {
-    // Iterator::zip: position by position, as long as both last
-    #[verifier::external_body]
-    pub fn zip<Y>(self, other: SeqIter<Y>) -> (r: ZipIter2<X, Y>)
-        ensures
-            r.items@.len() == (if self.items@.len() <= other.items@.len() { self.items@.len() } else { other.items@.len() }),
-            forall|k: int| 0 <= k < r.items@.len() ==> #[trigger] r.items@[k] == (self.items@[k], other.items@[k]),
-    { unimplemented!() }
-    // Iterator::map with a one-argument function
-    #[verifier::external_body]
-    pub fn map<B, F: FnMut(X) -> B>(self, f: F) -> (r: MapIter<B>)
-        requires forall|k: int| 0 <= k < self.items@.len() ==> #[trigger] call_requires(f, (self.items@[k],))
-        ensures r.items@.len() == self.items@.len(), forall|k: int| 0 <= k < self.items@.len() ==> call_ensures(f, (self.items@[k],), #[trigger] r.items@[k])
-    { unimplemented!() }
-}
-impl<X, Y> ZipIter2<X, Y> {
-    // Iterator::map over pairs; the closure's tuple pattern `|(v, e)|` is written as two parameters (R9)
-    #[verifier::external_body]
-    pub fn map<B, F: FnMut(X, Y) -> B>(self, f: F) -> (r: MapIter<B>)
-        requires forall|k: int| 0 <= k < self.items@.len() ==> #[trigger] call_requires(f, (self.items@[k].0, self.items@[k].1))
-        ensures r.items@.len() == self.items@.len(), forall|k: int| 0 <= k < self.items@.len() ==> call_ensures(f, (self.items@[k].0, self.items@[k].1), #[trigger] r.items@[k])
-    { unimplemented!() }
-}
-// `collect()` into a Vec, and into Option<Vec<_>> (None as soon as one item is None)
-pub trait VerifCollect<R> { spec fn collect_spec(self, r: R) -> bool; fn collect(self) -> (r: R) where Self: Sized ensures self.collect_spec(r); }
-impl<B> VerifCollect<Vec<B>> for MapIter<B> {
-    open spec fn collect_spec(self, r: Vec<B>) -> bool { r@ == self.items@ }
-    #[verifier::external_body]
-    fn collect(self) -> (r: Vec<B>) { unimplemented!() }
-}
-impl<B> VerifCollect<Option<Vec<B>>> for MapIter<Option<B>> {
-    open spec fn collect_spec(self, r: Option<Vec<B>>) -> bool {
-        &&& r is None <==> exists|k: int| 0 <= k < self.items@.len() && (#[trigger] self.items@[k]) is None
-        &&& r matches Some(v) ==> v@.len() == self.items@.len() && forall|k: int| 0 <= k < v@.len() ==> self.items@[k] == Some(#[trigger] v@[k])
-    }
-    #[verifier::external_body]
-    fn collect(self) -> (r: Option<Vec<B>>) { unimplemented!() }
 }
